@@ -20,7 +20,8 @@ ASSUMPTIONS = ['virtual time: library processing takes zero time, so retransmiss
                'two requests with identical patterns pending at once are not generated (the library keys timers by pattern)']
 REQUIRED = ['mon.requests', 'mon.retransmissions_expected', 'mon.retransmissions_observed', 'mon.cancelled_by_reply',
             'mon.never_answered_windows', 'mon.reliable_link_cases', 'mon.close_reopen_cases', 'mon.timers_observed',
-            'mon.shared_prefix_cases', 'mon.requests_sent_while_the_link_was_being_closed']
+            'mon.shared_prefix_cases', 'mon.requests_sent_while_the_link_was_being_closed',
+            'mon.radio_link_mode_flag_checks']
 DESC_TIMEOUT = 900
 PORT = 9
 EPS = 1e-9
@@ -34,6 +35,7 @@ def cases(tier, seed):
         kind = ('patterns', 'patterns', 'reopen', 'reliable', 'patterns', 'reopen')[i % 6]
         out.append({'seed': seed * 1000003 + i, 'kind': kind, 'nreq': rnd.randint(1, 6),
                     'sched': rnd.choice(('rtb', 'random', 'pct')), 'quarter': rnd.randint(0, 11)})
+    out += [{'seed': seed * 7 + i, 'kind': 'radioflag'} for i in range(2 if tier == 'quick' else 12)]
     return out
 
 
@@ -71,8 +73,43 @@ class Responder(simcf.SimCF):
         return []
 
 
+class _RadioFlagCtx:
+    """Runs the radio start-up scenarios of the C01 harness and keeps only what C10 depends on: whether the
+    driver's delivery-guarantee flag (needs_resending) matches the negotiated link mode."""
+
+    def __init__(self, ctx):
+        self._ctx = ctx
+        self.violations = []
+
+    def violate(self, mech, detail, replay=None):
+        if mech == 'radio:needs_resending-inconsistent-with-safelink':
+            self._ctx.violate('retry:radio-link-delivery-guarantee-flag-wrong', detail,
+                              replay={'kind': 'radioflag', 'seed': detail.get('_seed', 0)})
+
+    def __getattr__(self, name):
+        if name in ('count', 'nontrivial', 'sample'):
+            return lambda *a, **k: None
+        return getattr(self._ctx, name)
+
+
+def run_radioflag(desc, ctx):
+    harness.init()
+    from vf.checks import c01
+    proxy = _RadioFlagCtx(ctx)
+    for lost in (0, 3, 10):
+        for variant in range(6):
+            w = [1] * lost + [0] * 3       # first `lost` negotiation exchanges lost on the uplink
+            sl = variant < 4
+            for prior in (False, True):
+                c01.one(proxy, list(w), 1, 1, [12], [12], 5, safelink=sl, nsub=1, sseed=desc['seed'] * 13 + variant, policy='random',
+                        label='delivery-guarantee-flag', garbage=(variant == 4), prior=prior)
+                ctx.count('mon.radio_link_mode_flag_checks')
+
+
 def run(desc, ctx):
     harness.init()
+    if desc.get('kind') == 'radioflag':
+        return run_radioflag(desc, ctx)
     from vf import detsched as ds, simlink
     from cflib.crazyflie import Crazyflie
     from cflib.crtp.crtpstack import CRTPPacket
